@@ -98,42 +98,63 @@ Proof.
   destruct (bytes_eqb f _ && bytes_eqb g _); eauto.
 Qed.
 
-Ltac dh_step hh :=
+(* "returns normally or refuses": the shape every step of the decoder is shown to have.  The
+   continuation of a bind is proved once, under its binder, so the proof of decode_header is
+   linear in the size of the term (no case split is ever duplicated). *)
+Definition oe {A} (r : res A) : Prop := (exists v, r = Ok v) \/ (exists e, r = Err e).
+
+Lemma oe_ok {A} (v : A) : oe (Ok v).
+Proof. left; eauto. Qed.
+Lemma oe_err {A} e : oe (@Err A e).
+Proof. right; eauto. Qed.
+Lemma oe_if {A} (b : bool) (x y : res A) : oe x -> oe y -> oe (if b then x else y).
+Proof. destruct b; auto. Qed.
+Lemma oe_bind {A B} (r : res A) (f : A -> res B) : oe r -> (forall a, oe (f a)) -> oe (bind r f).
+Proof. intros [[v E]|[e E]] H; rewrite E; cbn [bind]; [apply H|apply oe_err]. Qed.
+
+Lemma num_field_oe h off len : off + len <= blen h -> 0 < len -> oe (num_field h off len).
+Proof. exact (num_field_safe h off len). Qed.
+
+Lemma hfield_oe h off len : off + len <= blen h -> oe (hfield h off len).
+Proof. intro H. destruct (hfield_ok h off len H) as [f [E _]]. rewrite E. apply oe_ok. Qed.
+
+Ltac oe_step :=
   match goal with
-  | |- context [bind (Ok _) _] => cbn [bind]
-  | |- context [bind (Err _) _] => cbn [bind]
-  | |- context [has_flag ?a ?b] => destruct (has_flag a b)
-  | |- context [num_field hh ?off ?len] =>
-    let v := fresh "v" in let e := fresh "e" in let E := fresh "Enum" in
-    let A := fresh "A" in let B := fresh "B" in
-    assert (A : off + len <= blen hh) by field_in_header;
-    assert (B : 0 < len) by field_in_header;
-    destruct (num_field_safe hh off len A B) as [[v E]|[e E]]; rewrite E; clear A B
-  | |- context [hfield hh ?off ?len] =>
-    let f := fresh "f" in let E := fresh "Efld" in let L := fresh "Lfld" in let A := fresh "A" in
-    assert (A : off + len <= blen hh) by field_in_header;
-    destruct (hfield_ok hh off len A) as [f [E L]]; rewrite E; clear A
-  | |- (exists o, Ok ?x = Ok o) \/ _ => left; eexists; reflexivity
-  | |- _ \/ (exists e, Err ?x = Err e) => right; eexists; reflexivity
+  | |- oe (Ok _) => apply oe_ok
+  | |- oe (Err _) => apply oe_err
+  | |- oe (if _ then _ else _) => apply oe_if
+  | |- oe (num_field _ _ _) => apply num_field_oe; field_in_header
+  | |- oe (hfield _ _ _) => apply hfield_oe; field_in_header
+  | |- oe (bind _ _) => apply oe_bind; [|intro]
   end.
+
+(* the file name: prefix[0] is read from the 155-byte field *)
+Lemma decode_name_oe h out ver :
+  blen h = sizeof_tar_header_t ->
+  oe (do nm <- hfield h hoff_name hlen_name;
+      do pfx <- hfield h hoff_prefix hlen_prefix;
+      do p0 <- lget pfx 0;
+      match ver with
+      | V_POSIX => if negb (p0 =? 0) then Ok (set_name out (Some (strn pfx ++ [47] ++ strn nm)))
+                   else Ok (set_name out (Some (strn nm)))
+      | _ => Ok (set_name out (Some (strn nm)))
+      end).
+Proof.
+  intro Hh.
+  destruct (hfield_ok h hoff_name hlen_name ltac:(field_in_header)) as [nm [E1 _]]. rewrite E1; cbn [bind].
+  destruct (hfield_ok h hoff_prefix hlen_prefix ltac:(field_in_header)) as [pfx [E2 L2]]. rewrite E2; cbn [bind].
+  destruct (lget_lt pfx 0) as [p0 E3]; [rewrite L2; unfold hlen_prefix; lia|]. rewrite E3; cbn [bind].
+  destruct ver; repeat oe_step.
+Qed.
 
 Lemma decode_header_safe h flags out ver :
   blen h = sizeof_tar_header_t ->
   (exists o, decode_header h flags out ver = Ok o) \/ (exists e, decode_header h flags out ver = Err e).
 Proof.
-  intro Hh. unfold decode_header.
+  intro Hh. change (oe (decode_header h flags out ver)). unfold decode_header.
   destruct (bget_lt h hoff_typeflag ltac:(unfold blen in Hh; field_in_header)) as [tf Etf]. rewrite Etf; cbn [bind].
-  repeat dh_step h.
-  all: try match goal with |- context [lget ?pf 0] =>
-         let p0 := fresh "p0" in let E3 := fresh "E3" in
-         destruct (lget_lt pf 0) as [p0 E3];
-         [match goal with L : length pf = _ |- _ => rewrite L; unfold hlen_prefix; lia end|rewrite E3; cbn [bind]]
-       end.
-  all: try (destruct ver).
-  all: repeat match goal with |- context [if ?c then _ else _] => destruct c end.
-  all: repeat dh_step h.
-  all: repeat match goal with |- context [if ?c then _ else _] => destruct c end.
-  all: repeat dh_step h.
+  apply oe_bind; [apply oe_if; [apply oe_ok|apply decode_name_oe; exact Hh]|intro out1].
+  repeat oe_step.
 Qed.
 
 (* ================================================================== *)
@@ -662,7 +683,8 @@ Proof.
   cbn [rh_loop].
   destruct (sread_spec sizeof_tar_header_t s) as [Hr1 Hr2].
   destruct (sread sizeof_tar_header_t s) as [h s1]. cbn [fst snd] in *.
-  destruct (blen h <? sizeof_tar_header_t) eqn:Eb; [right; left; reflexivity|]. apply N.ltb_ge in Eb.
+  destruct (blen h =? 0); [right; left; reflexivity|].
+  destruct (blen h <? sizeof_tar_header_t) eqn:Eb; [left; eauto|]. apply N.ltb_ge in Eb.
   assert (Hh : blen h = sizeof_tar_header_t) by (unfold blen, sizeof_tar_header_t in *; lia).
   assert (Hs1 : (length s1 < length s)%nat) by (unfold blen, sizeof_tar_header_t in *; lia).
   destruct (all_zero h).
@@ -772,3 +794,21 @@ Qed.
 
 Lemma tar_walk_all_graceful_l s : graceful (tar_walk_all s).
 Proof. unfold tar_walk_all. apply tar_walk_graceful. lia. Qed.
+
+(* a returned header has consumed input: the archive walk makes progress *)
+Lemma read_header_progress_l s h s' : read_header s = Ok (RH_hdr h s') -> (length s' < length s)%nat.
+Proof.
+  intro H. destruct (read_header_ok s) as [[e E]|[E|[h0 [s0 [E Hs]]]]]; rewrite E in H; try discriminate.
+  inversion H; subst. exact Hs.
+Qed.
+
+(* a partial header record is an error, the end of the input between two records is the end of the archive *)
+Lemma read_header_partial_l s : (0 < length s < 512)%nat -> exists e, read_header s = Err e.
+Proof.
+  intro H. unfold read_header. cbn [rh_loop].
+  destruct (sread_spec sizeof_tar_header_t s) as [Hr1 _].
+  destruct (sread sizeof_tar_header_t s) as [h s1]. cbn [fst] in Hr1.
+  assert (E0 : (blen h =? 0) = false) by (apply N.eqb_neq; unfold blen, sizeof_tar_header_t in *; lia).
+  assert (E1 : (blen h <? sizeof_tar_header_t) = true) by (apply N.ltb_lt; unfold blen, sizeof_tar_header_t in *; lia).
+  rewrite E0, E1. eauto.
+Qed.
